@@ -179,6 +179,10 @@ def bounded(rep, tier):
         'unann': 'def u(self, x):\n        return x',
         'ntc': '@no_type_check\n    def n(self, x: int) -> int:\n        return x',
         'strattr': 'K = int\n    def k(self, x: "K") -> "K":\n        return x',
+        'ustatic': '@staticmethod\n    def us(x):\n        return x',                     # unannotated descriptors: decoration is the identity
+        'uclass': '@classmethod\n    def uc(cls, x):\n        return x',
+        'uprop': '@property\n    def up(self):\n        return 1',
+        'setonly': 'def _set_w(self, v: int) -> None:\n        self._w = v\n    w = property(None, _set_w)',      # a write-only property (no getter) is legal
     }
     cases = 0; fails = []
     combos = []
@@ -186,7 +190,7 @@ def bounded(rep, tier):
     for r in (1, 2, 3): combos += list(itertools.combinations(names, r))
     if tier == 'quick': combos = combos[::3]
     import warnings as _w
-    DECOS = [('default', beartype), ('nonfatal', beartype(conf=BeartypeConf(warning_cls_on_decorator_exception=UserWarning)))]
+    DECOS = [('default', beartype), ('nonfatal', beartype(conf=BeartypeConf(warning_cls_on_decorator_exception=UserWarning))), ('O0', beartype(conf=BeartypeConf(strategy=BeartypeStrategy.O0)))]
     _w.simplefilter('ignore', UserWarning)
     for combo, (dname, deco) in itertools.product(combos, DECOS):
         body = '\n    '.join(MEMBERS[k] for k in combo)
@@ -199,9 +203,16 @@ def bounded(rep, tier):
                 exec(src, m.__dict__); return m.__dict__['Outer'] if nested_mode else m.__dict__['C']
             try:
                 A = build(); B = build()
+                before_keys = set(vars(A.C if nested_mode else A)); before_members = dict(vars(A.C if nested_mode else A))
                 A2 = deco(A)
+                for extra in sorted(set(vars(A.C if nested_mode else A)) - before_keys):
+                    fails.append((combo, nested_mode, f'extra_member {extra}: decorating the class defined a member the class itself does not define (decorating its members one by one adds none)'))
                 if A2 is not A: fails.append((combo, nested_mode, 'decorating the class returned another object'))
                 snap = dict(vars(A.C if nested_mode else A))
+                # identity for unannotated members (all members under the O0 strategy)
+                for nm_, old_ in before_members.items():
+                    if nm_.startswith('__') or (dname != 'O0' and nm_ not in ('us', 'uc', 'up', 'u')): continue
+                    if snap.get(nm_) is not old_: fails.append((combo, nested_mode, f'identity_{"O0" if dname == "O0" else "unannotated"} {type(old_).__name__}: member {nm_} was replaced by another object although nothing is checked'))
                 if deco(A) is not A: fails.append((combo, nested_mode, 'second decoration did not return the same class'))
                 # "decorating an already decorated class returns it unchanged": no member is replaced or added by the second decoration
                 snap2 = dict(vars(A.C if nested_mode else A))
@@ -222,6 +233,7 @@ def bounded(rep, tier):
                 probes = [('m', (1,), True), ('m', ('bad',), False), ('c', (1,), True), ('c', ('bad',), False), ('s', (1,), True), ('s', ('bad',), False), ('u', ('any',), True), ('n', ('bad',), True), ('k', (1,), True), ('k', ('bad',), False)]
                 for nm, args, should_pass in probes:
                     if not hasattr(ia, nm): continue
+                    if dname == 'O0': should_pass = True
                     cases += 1
                     res = []
                     for inst in (ia, ib):
@@ -230,7 +242,15 @@ def bounded(rep, tier):
                         except Exception as e: res.append(type(e).__name__)
                     if res[0] != res[1]: fails.append((combo, nested_mode, f'{nm}{args}: class-decorated {res[0]} vs inner-class-decorated {res[1]}'))
                     if (res[0] == 'ok') != should_pass: fails.append((combo, nested_mode, f'{nm}{args}: {res[0]}, expected {"ok" if should_pass else "violation"}'))
-                if hasattr(ia, 'me'):
+                if 'setonly' in combo and dname != 'O0':
+                    for inst, lab in ((ia, 'outer-decorated'), (ib, 'inner-decorated')):
+                        cases += 1
+                        try: inst.w = 5
+                        except Exception as e: fails.append((combo, nested_mode, f'write-only property w = 5 {lab}: {type(e).__name__}'))
+                        try: inst.w = 'bad'; fails.append((combo, nested_mode, f'write-only property w = "bad" {lab}: accepted'))
+                        except BeartypeCallHintViolation: pass
+                        except Exception as e: fails.append((combo, nested_mode, f'write-only property w = "bad" {lab}: {type(e).__name__}'))
+                if hasattr(ia, 'me') and dname != 'O0':
                     cases += 1
                     for inst, lab in ((ia, 'outer-decorated'), (ib, 'inner-decorated')):
                         try: inst.me(type(inst)())
@@ -238,7 +258,7 @@ def bounded(rep, tier):
                         try: inst.me(object()); fails.append((combo, nested_mode, f'me(object()) {lab}: accepted'))
                         except BeartypeCallHintViolation: pass
                         except Exception as e: fails.append((combo, nested_mode, f'me(object()) {lab}: {type(e).__name__}'))
-                if 'plain' in combo:
+                if 'plain' in combo and dname != 'O0':
                     f = vars(CA)['m']
                     if getattr(f, '__wrapped__', None) is None or f.__name__ != 'm' or f.__doc__ != 'doc m' or str(inspect.signature(f)) != '(self, x: int) -> int': fails.append((combo, nested_mode, 'm: __wrapped__/name/doc/signature not preserved'))
                 if 'unann' in combo and vars(CA)['u'] is not vars(build().C if nested_mode else build())['u'].__class__ and getattr(vars(CA)['u'], '__wrapped__', None) is not None: fails.append((combo, nested_mode, 'unannotated member was wrapped'))
